@@ -89,6 +89,20 @@ static void op_drbg(int argc, char **argv) {
 			if (take_err()) { fprintf(OUT, "err"); continue; }
 			bytes_print(B2, n);
 			for (int k = 0; k < 64; k++) if (B2[n + k] != 0xEE) { fprintf(OUT, "WROTE-PAST-END"); break; }
+		} else if (t[0] == 'S' && t[1] == ':') {
+			/* state injection S:<V 55 bytes>:<C 55 bytes>:<counter> — boundary states for the carry chains */
+			char *c1 = strchr(t + 2, ':'), *c2 = c1 ? strchr(c1 + 1, ':') : NULL;
+			if (!c1 || !c2) { fprintf(OUT, "bad"); continue; }
+			*c1 = 0; *c2 = 0;
+			ctx_t *cx = core_get();
+			int len = (RLC_RAND_SIZE - 1) / 2;
+			if (bytes_parse(B1, MAXB, t + 2) != len || bytes_parse(B3, MAXB, c1 + 1) != len) { fprintf(OUT, "bad"); continue; }
+			cx->rand[0] = 0;
+			memcpy(cx->rand + 1, B1, len);
+			memcpy(cx->rand + 1 + len, B3, len);
+			cx->counter = parse_int(c2 + 1);
+			cx->seeded = 1;
+			fprintf(OUT, "ok");
 		} else if (t[0] == 'r' && t[1] == ':') {
 			int count = 0, n = 0;
 			sscanf(t + 2, "%d:%d", &count, &n);
